@@ -19,7 +19,7 @@ from vf.oracle import resolve as R
 
 MOD = "vf.checks.c19"
 FAMS = {"length": ["m", "cm", "km", "inch", "ft", "mm"], "time": ["s", "ms", "min", "hr"], "mass": ["kg", "g", "lb", "mg"],
-        "energy": ["J", "erg", "eV", "kJ", "N*m"], "velocity": ["m/s", "km/hr", "cm/s", "mile/hr"], "none": ["dimensionless", "percent"]}
+        "energy": ["J", "erg", "eV", "kJ", "N*m"], "velocity": ["m/s", "km/hr", "cm/s", "mile/hr"], "none": ["dimensionless", "percent", "km/m", "cm/m"]}
 THETAS = [0.0, 0.5, 0.99, 1.01, 2.0, 50.0]
 
 
@@ -175,7 +175,7 @@ def judge(c, part):
     if s3 == "ok" and s1 == "ok" and bool(r3) != bool(r1) and np.all(tol_si > 0):
         bad(f"allclose_units:verdict-depends-on-units:{cls}", first=r1, second=r3, units2=(c["ua2"], c["ud2"], c["uat2"]))
     # NumPy spellings (atol = 0 only: a bare NumPy atol has no stated unit)
-    if ak == "zero" and c["rtol_kind"] == "bare" and np.all(tol_si > 0) and c["akind"] == "q" and c["fam"] != "none":
+    if ak == "zero" and c["rtol_kind"] == "bare" and np.all(tol_si > 0) and c["akind"] == "q":
         for nm, f in (("np.allclose", lambda: bool(np.allclose(A, D, rtol=rtol, atol=0))), ("np.isclose", lambda: bool(np.all(np.isclose(A, D, rtol=rtol, atol=0))))):
             s4, r4 = call(f)
             if s4 == "err":
